@@ -38,7 +38,10 @@ def apply_edits(root, edits):
         src = src.replace(old, new)
         with open(path, "w", encoding="utf-8") as fh:
             fh.write(src)
-        compile(src, path, "exec")
+        import warnings
+        with warnings.catch_warnings():
+            warnings.simplefilter("ignore")
+            compile(src, path, "exec")
 
 
 def run_variant(v):
